@@ -892,10 +892,10 @@ func runC35(c *core.Ctx) error {
 	var cfgs []mcCfg
 	if !c.Thorough() {
 		plans := onePacketPlans(allShapes, []int{1000, 1003, 1016, 1040, 3008, 3012, 4008}, []int{0, 1, 11, 12})
-		plans = append(plans, samplePlans(rnd, allShapes, allCryptos, 6, 2, 3)...)
+		plans = append(plans, samplePlans(rnd, allShapes, allCryptos, 5, 2, 3)...)
 		plans = append(plans, padPlans(allShapes, []int{3, 4}, []int{0, 1})...)
 		cfgs = append(cfgs, mcCfg{name: "1-packet-exhaustive+sampled-2..3", maxPkts: 3, shapes: allShapes, cryptos: allCryptos,
-			everyK: []int{1, 7, 16}, singleCuts: "class", corrEveryK: []int{0}, lenMasks: []int{1, 16}, padKs: []int{3, 4}, plans: plans, coverage: true, workers: 4})
+			everyK: []int{1, 16}, singleCuts: "class", corrEveryK: []int{0}, lenMasks: []int{1, 16}, padKs: []int{3, 4}, plans: plans, coverage: true, workers: 4})
 	} else {
 		cfgs = append(cfgs, mcCfg{name: "exhaustive-1", maxPkts: 1, shapes: allShapes, cryptos: allCryptos,
 			everyK: []int{1, 2, 3, 5, 7, 11, 13, 16, 17}, singleCuts: "all", corrEveryK: []int{0, 1, 16}, lenMasks: []int{1, 2, 8, 16, 64, 255}, padKs: []int{1, 3, 4, 5},
